@@ -14,7 +14,7 @@ import pprint
 import pandas as pd
 import requests as rq
 
-from tangelo.linq.translator import translate_json_ionq
+from tangelo.linq.translator.translate_json_ionq import translate_c_to_json_ionq as translate_json_ionq
 from tangelo.linq.qpu_connection.qpu_connection import QpuConnection
 
 
